@@ -23,6 +23,9 @@ func zxItoa(i int) string { return strconv.Itoa(i) }
 var (
 	zxFieldA = core.NewField("a", expr.SUM(expr.FIELD("a")))
 	zxFieldB = core.NewField("b", expr.SUM(expr.FIELD("b")))
+	// a field that keeps the name b but is defined by a different expression (same values): to
+	// the store it is another field — altering b into it is a removal plus an addition
+	zxFieldB2 = core.NewField("b", expr.SUM(expr.MULT(expr.FIELD("b"), expr.CONST(1))))
 	zxFieldC = core.NewField("c", expr.MAX(expr.FIELD("c")))
 	zxNow    = time.Unix(1500000000, 0)
 )
@@ -96,13 +99,14 @@ func zxVal(seq encoding.Sequence, f core.Field) (float64, bool) {
 // disk or in memory is delivered exactly once, each column = file value (+) memory value, and the
 // scan does not end early without an error (DESIGN §5 C03.I, C15.I).
 //
-//zx:harness prop=C03+C15 id=I tier=quick mode=real env=fs shard=old:3,new:3
+//zx:harness prop=C03+C15 id=I tier=quick mode=real env=fs shard=old:4,new:4
 func zxC15Iterate() {
 	zxFSReset()
 	pool := []core.Fields{
 		{core.PointsField, zxFieldA},
 		{core.PointsField, zxFieldA, zxFieldB},
 		{zxFieldB, core.PointsField, zxFieldA}, // reordered
+		{core.PointsField, zxFieldA, zxFieldB2}, // b redefined under the same name
 	}
 	oldFields := pool[vrtShape("old", len(pool))]
 	newFields := pool[vrtShape("new", len(pool))]
@@ -123,7 +127,7 @@ func zxC15Iterate() {
 	zxInsert(rs, rs.memStore, "x", zxNow, map[string]float64{"a": va2, "b": vb2}, 0, 30)
 	zxInsert(rs, rs.memStore, "z", zxNow, map[string]float64{"a": 3, "b": 4}, 0, 40)
 	// requested fields
-	subsets := []core.Fields{{zxFieldA}, {zxFieldB}, {zxFieldA, zxFieldB}, {zxFieldB, zxFieldA}, {core.PointsField, zxFieldB}, nil}
+	subsets := []core.Fields{{zxFieldA}, {zxFieldB}, {zxFieldA, zxFieldB}, {zxFieldB, zxFieldA}, {core.PointsField, zxFieldB}, nil, {zxFieldB2}, {zxFieldB2, zxFieldA}}
 	si := vrtShape("subset", len(subsets))
 	out := subsets[si]
 	eff := out
